@@ -2,6 +2,8 @@ import MidnightZK.Model.Common
 import MidnightZK.Model.C01.Schedule
 import MidnightZK.Model.C01.Parse
 import MidnightZK.Model.C01.GraphDump
+import MidnightZK.Model.C01.ArgsRun
+import MidnightZK.Model.C01.Identities
 /-! Line-protocol handler of property C01. -/
 namespace MidnightZK.C01.Driver
 open MidnightZK MidnightZK.C01 MidnightZK.C01.Parse
@@ -30,11 +32,34 @@ def answer (line : String) : String :=
     match parseShape? rest, parseCfg? rest with
     | some sh, some cfg => toString (proofLen sh cfg)
     | _, _ => "bad-op"
+  | "idcount" :: rest =>
+    let nat (k : String) : Option Nat := (C02.Parse.kv rest k).bind String.toNat?
+    match nat "np", nat "g", nat "s", nat "l", nat "t" with
+    | some np, some g, some s, some l, some t => toString (Ids.verifierIds ⟨np, g, s, l, t⟩).length
+    | _, _, _, _, _ => "bad-op"
   | _ => "bad-op"
+
+/-- Stateful handler: an `argtable` line loads the real table of one proof (answer `ok`), the
+argument requests (`permz`, `lookupcomp`, `lookupperm`, `lookupz`, `trashvec`, `permrules`,
+`lookuprules`, `trashrules`) refer to the table loaded last and must carry its `id`; every other
+request is stateless. -/
+def step (st : Option Args.ArgCase) (line : String) : Option Args.ArgCase × String :=
+  match words line with
+  | "argtable" :: rest =>
+    match Args.parseArgCase rest with
+    | some c => (some c, "ok")
+    | none => (none, "bad-op")
+  | op :: rest =>
+    if ["permz", "lookupcomp", "lookupperm", "lookupz", "trashvec", "permrules", "lookuprules", "trashrules"].contains op then
+      match st with
+      | some c => (st, Args.answerArg c op rest)
+      | none => (st, "bad-op")
+    else (st, answer line)
+  | [] => (st, "bad-op")
 
 end MidnightZK.C01.Driver
 
 /-- `mzk-c01 < ops.txt > model.txt` : one answer line per request line. -/
 def main : IO UInt32 := do
-  MidnightZK.lineLoop (← IO.getStdin) (← IO.getStdout) MidnightZK.C01.Driver.answer
+  MidnightZK.lineLoopSt (← IO.getStdin) (← IO.getStdout) MidnightZK.C01.Driver.step none
   return 0
